@@ -49,7 +49,7 @@ def strategy(tier):
         # some targets get their working directory as a path relative to the invoking directory (API tier only;
         # the CLI tier always hands absolute working directories to gwf)
         flags = [draw(st.sampled_from([False, False, True])) for _ in d["targets"]]
-        return {"desc": d, "relwd": flags}
+        return {"desc": d, "relwd": flags, "alt_root": draw(st.booleans())}
 
     return with_relwd()
 
@@ -81,6 +81,27 @@ def info_tier(desc, R):
             if set(d.get("dependents", [])) != R.dependents[n] or len(d.get("dependents", [])) != len(R.dependents[n]):
                 viols.append(Violation({"kind": "info-dependents"},
                                        f"info {n}: dependents {d.get('dependents')} != {sorted(R.dependents[n])}"))
+        # the human-readable format reports the same dependents
+        rp = proj.gwf(["info", "-f", "pretty"])
+        if rp.code != 0 or rp.crashed:
+            viols.append(Violation({"kind": "info-pretty-failed"}, rp.brief()))
+        else:
+            cur, section, shown = None, None, {}
+            for line in rp.out.splitlines():
+                if line.startswith("    "):
+                    val = line.strip()
+                    if section == "Name:":
+                        cur = val
+                        shown[cur] = []
+                    elif section == "Dependents:" and cur is not None and val != "-":
+                        shown[cur].append(val)
+                elif line.strip():
+                    section = line.strip()
+            for n in R.by_name:
+                if sorted(shown.get(n, ["<missing>"])) != sorted(R.dependents[n]):
+                    viols.append(Violation({"kind": "info-pretty-dependents"},
+                                           f"info -f pretty {n}: Dependents {shown.get(n)} != {sorted(R.dependents[n])}"))
+                    break
         # a single named target reports the same relations
         first = sorted(R.by_name)[0]
         r1 = proj.gwf(["info", first])
@@ -101,9 +122,9 @@ def run_case(case):
     desc = case["desc"]
     R = model.Resolved(desc)
     viols, labels = [], set()
-    api_desc = desc
+    api_desc = dict(desc, alt_root=bool(case.get("alt_root")))
     if any(case.get("relwd", [])):
-        api_desc = dict(desc, targets=[dict(t, relwd=bool(f)) for t, f in zip(desc["targets"], case["relwd"])])
+        api_desc = dict(api_desc, targets=[dict(t, relwd=bool(f)) for t, f in zip(desc["targets"], case["relwd"])])
         labels.add("relative-working-dir")
     try:
         graph, _ = api.build_graph(api_desc, real=True)
